@@ -17,7 +17,7 @@ CLAIMED = {
     ),
     "C18": (
         "§6 C18",
-        "Lean 4 exhaustive kernel case analysis of the identify decision table (1 680 configurations: no crash, designated object, usage errors iff documented, verify exit codes) + exhaustive correspondence through click's CliRunner against independently computed SWHIDs",
+        "Lean 4 exhaustive kernel case analysis of the identify decision table (2 240 configurations: no crash, designated object, usage errors iff documented, verify exit codes) + exhaustive correspondence through click's CliRunner against independently computed SWHIDs",
         "Machine-checked Lean 4 theorems over a total model of the decision logic of `swh identify` on the finite configuration space (argument kind x --type x dereference x filename x recursive x verify x exclude), closed by exhaustive case analysis (a proof for a finite table): on every in-scope configuration the command never crashes, designates the link's target iff dereferencing was requested, prints one line per node iff recursive on a directory, shows names iff requested, raises a usage error exactly for the documented unsupported combinations, and verification exits 0 iff the SWHIDs are equal. The CLI option table is regenerated from the live click command. Every in-scope configuration is run through CliRunner on generated fixtures (non-UTF-8 names, nested/hidden directories, a real git repository, exclusion patterns incl. '.*') and compared with SWHIDs computed independently (hashlib, git's tree rules, physically pruned copies).",
         NOTE + " click parsing, os.path and the library calls are below the model (partial in that sense).",
     ),
